@@ -3,6 +3,7 @@ package main
 import (
 	"cmp"
 	"fmt"
+	"hash/fnv"
 	"math"
 	"math/rand/v2"
 	"runtime"
@@ -408,6 +409,13 @@ func evalC11Set[T any, S setLikeC11[T, S]](fam setFamC11, cd codecC11[T], newSet
 		}
 	}
 
+	// Every second script runs without the harness's own look at the sets between the operations
+	// (Values, Len and Has on every value after each mutation): those calls are calls too, and a
+	// set that remembers something from one call to the next behaves differently under them.  Such
+	// a script is checked through the results of its own operations and once at the end.
+	hq := fnv.New32a()
+	hq.Write([]byte(script))
+	quiet := hq.Sum32()%2 == 0
 	var outs []string
 	mid, delPresent, cloned := false, false, false
 	for i, op := range splitOpsC11(script) {
@@ -585,10 +593,14 @@ func evalC11Set[T any, S setLikeC11[T, S]](fam setFamC11, cd codecC11[T], newSet
 			tok = ptok
 		}
 		outs = append(outs, tok)
-		if mutation {
+		if mutation && !quiet {
 			checkAll(i, op)
 			checkKept(i, op)
 		}
+	}
+	if quiet {
+		checkAll(len(outs), "end")
+		checkKept(len(outs), "end")
 	}
 	class := "trivial-" + fam.name
 	var parts []string
@@ -762,6 +774,17 @@ func genSetScriptC11(rng *rand.Rand, val func() string, cloneHeavy bool) string 
 	}
 	for j, l := 0, rng.IntN(24); j < l; j++ {
 		r := reg()
+		if rng.IntN(4) == 0 {
+			// a caller's idiom on one set and one value: look it up, change the set around it,
+			// act on the answer ("if !Has(v) { Add(v) }" with something in between)
+			v, w := val(), val()
+			ops = append(ops, r+"h"+v)
+			for k, m := 0, 1+rng.IntN(2); k < m; k++ {
+				ops = append(ops, r+pick(rng, "d"+w, "d"+w, "d"+val(), "a"+w, "x", "l", "h"+w))
+			}
+			ops = append(ops, r+pick(rng, "a", "a", "d")+v, r+"h"+v, r+"v")
+			continue
+		}
 		switch x := rng.IntN(100); {
 		case x < 4:
 			ops = append(ops, r+"n"+vals())
